@@ -195,7 +195,15 @@ func verifC08SetLen() {
 	n := vChoice("n", 4)
 	elems := make([]cty.Value, n)
 	for i := range elems {
-		elems[i] = cty.StringVal(vStr("e", 1, '0', '2'))
+		// "1" and "true" (and "0" and "false") are different strings that convert to the same bool
+		switch vChoice("e-form", 3) {
+		case 0:
+			elems[i] = cty.StringVal(vStr("e", 1, '0', '2'))
+		case 1:
+			elems[i] = cty.StringVal("true")
+		default:
+			elems[i] = cty.StringVal("false")
+		}
 	}
 	var c cty.Value
 	src := kinds[srcK](ety)
